@@ -750,6 +750,9 @@ def main():
     rng = random.Random(cfg["seed"])
     props = set(cfg["props"])
     cs = cases(rng, cfg.get("tier", "quick")) if (props - {"C09"}) or cfg.get("real_for_c09") else []
+    if cs:
+        import impl_rules_extra
+        cs = cs + impl_rules_extra.extra_cases(rng, cfg.get("tier", "quick"))
     if props & {"C09", "C05", "C04"}:
         cs = cs + complex_cases(rng, cfg.get("tier", "quick"))
     only = cfg.get("only")
